@@ -125,6 +125,7 @@ func funcValueUses(p *core.Program, obj *types.Func) []ast.Node {
 // wants to keep seeing as a call in flattened views (one line of reason each).
 var opaqueHelpers = map[string]string{
 	"pkg/gengo.writeImports": "C01.R4/C04 treat the import block as one write step of the file writer; its body is checked on its own (sorted imports)",
+	"pkg/namer.(*rawNamer).processName": "the argument rewriter is one step of the namer (C11.R6 / C03.R9 require every name to pass it; C15.R4 checks its body)",
 	"pkg/types.newPkg":       "the package-record constructor is a unit of C12/C13 (comment indexes, tables) and of the C13.R3 ordering rule (construction after registration)",
 }
 
